@@ -1058,27 +1058,27 @@ def install(world, summarise_c4=True, xsd=None):
     if summarise_c4:
         ins.set(HA.C4, "string_digest", lambda self: self.hasher.hexdigest())
         ins.set(HA.C4, "bytes_from_string_digest", classmethod(lambda cls, d: unhexlify(d)))
-    # log recorder
-    def rec(kind):
-        def f(msg, *a):
-            if a:
-                msg = msg % a
-            world.log.append((kind, msg))
-        return f
+    # log recorder: the logger's own functions run (level checks, formatting); what they hand to click.echo is recorded
+    import sys as _sys
+    import click as _click
 
-    ins.set(LG, "info", rec("out"))
-    ins.set(LG, "error", rec("err"))
+    class LogClick:
+        @staticmethod
+        def echo(message=None, file=None, nl=True, err=False, color=None):
+            world.log.append(("err" if (err or file is _sys.stderr) else "out", "" if message is None else message))
 
-    def verbose(msg, *a):
-        if LG.verbose_logging:
-            rec("out")(msg, *a)
+        @staticmethod
+        def secho(message=None, file=None, nl=True, err=False, color=None, **styles):
+            LogClick.echo(message, file=file, err=err)
 
-    def debug(msg, *a):
-        if LG.debug_logging:
-            rec("out")(msg, *a)
+        @staticmethod
+        def style(text, **styles):
+            return text
 
-    ins.set(LG, "verbose", verbose)
-    ins.set(LG, "debug", debug)
+        def __getattr__(self, k):
+            return getattr(_click, k)
+
+    ins.set(LG, "click", LogClick())
     ins.set(LG, "verbose_logging", False)
     return ins
 
@@ -1098,5 +1098,5 @@ STUBS = [
     "binascii.unhexlify: digest token -> bytes token",
     "lxml etree.tostring / iterparse / E builder: infoset model (no escaping, no encodings)",
     "datetime / time / dateutil.parser.parse: clock + zone model",
-    "ascmhl.logger.info/error/verbose/debug: recorder",
+    "click.echo / click.style as used by ascmhl.logger: recorder (the logger's own level checks and formatting run for real)",
 ]
